@@ -18,6 +18,7 @@ Definition e_l2n (a : sx) : sx :=
 Definition sx_oline (o : oline) : sx :=
   match o with
   | OOut l => SL [SS (s2l "out"); sx_line l]
+  | OMsg _ _ l => SL [SS (s2l "out"); sx_line l]
   | OErr l => SL [SS (s2l "err"); sx_line l]
   | OMaybe l => SL [SS (s2l "maybe"); sx_line l]
   | OAnyLines => SL [SS (s2l "anylines")]
@@ -67,8 +68,8 @@ Definition e_session (P : pdb) (a : sx) : sx :=
           match pm d (MAlways true), pm st (MAlways false) with
           | Ok dm, Ok sm =>
               let s0 := init_sess dm sm (negb (Z.eqb col 0)) (negb (Z.eqb unp 0)) (negb (Z.eqb ing 0)) in
-              let '(s1, outs) := run P s0 es in
-              SL [SS (s2l "ok"); SL (map (fun l => SL (map sx_oline l)) outs); sx_sess s1]
+              let '(T1, outs) := run P (mkTop None s0) es in
+              SL [SS (s2l "ok"); SL (map (fun l => SL (map sx_oline l)) outs); sx_sess (t_sess T1)]
           | Raise e _, _ => SL [SS (s2l "raise"); SZ (exn_code e)]
           | _, Raise e _ => SL [SS (s2l "raise"); SZ (exn_code e)]
           end
@@ -77,9 +78,84 @@ Definition e_session (P : pdb) (a : sx) : sx :=
   | _ => sx_err
   end.
 
+(* ---- matchers --------------------------------------------------------------------------- *)
+Definition get_vobj (s : sx) : option vobj :=
+  match s with
+  | SL [SZ id; g; ty] =>
+      match get_opt get_n g, get_ostr ty with
+      | Some g', Some ty' => Some (mkVobj id g' ty')
+      | _, _ => None
+      end
+  | _ => None
+  end.
+
+Definition get_varg (s : sx) : option varg :=
+  match s with
+  | SL [nm; SL (SS k :: payload)] =>
+      match get_ostr nm with
+      | None => None
+      | Some nm' =>
+          let mk v := Some (mkVarg nm' v) in
+          match payload with
+          | [SZ z; SL []] => if str_eqb k (s2l "int") then mk (VAInt z None) else None
+          | [SZ z; SL [SL ls]] =>
+              if str_eqb k (s2l "int") then
+                match get_list get_s ls with Some l => mk (VAInt z (Some l)) | None => None end
+              else None
+          | [SL [SZ m; SZ sc]] =>
+              if str_eqb k (s2l "float") then mk (VAFloat (mkDec m (Z.to_N sc))) else None
+          | [SS t] => if str_eqb k (s2l "str") then mk (VAStr t) else None
+          | [SL ty] =>
+              if str_eqb k (s2l "null") then
+                match get_ostr (SL ty) with Some ty' => mk (VANull ty') | None => None end
+              else None
+          | [o; SZ n] =>
+              if str_eqb k (s2l "obj") then
+                match get_vobj o with Some o' => mk (VAObj o' (negb (Z.eqb n 0))) | None => None end
+              else None
+          | [SZ z] => if str_eqb k (s2l "fd") then mk (VAFd z) else None
+          | [] => if str_eqb k (s2l "other") then mk VAOther else None
+          | _ => None
+          end
+      end
+  | _ => None
+  end.
+
+Definition get_vmsg (s : sx) : option vmsg :=
+  match s with
+  | SL [c; o; SS name; SL args; d] =>
+      match get_ostr c, get_vobj o, get_list get_varg args, get_opt get_vobj d with
+      | Some c', Some o', Some args', Some d' => Some (mkVmsg c' o' name args' d')
+      | _, _, _, _ => None
+      end
+  | _ => None
+  end.
+
+(* text -> str(parsed), str(simplified) *)
+Definition e_mparse (a : sx) : sx :=
+  match a with
+  | SS t => sx_res (fun m => SL [SS (mshow false m); SS (mshow false (simplify m))]) (parse t)
+  | _ => sx_err
+  end.
+
+(* (text, messages) -> simplified matches, unsimplified matches *)
+Definition e_meval (a : sx) : sx :=
+  match a with
+  | SL [SS t; SL msgs] =>
+      match get_list get_vmsg msgs with
+      | Some ms =>
+          sx_res (fun m => SL [SL (map (fun v => sx_bool (matches (simplify m) (VM v))) ms);
+                               SL (map (fun v => sx_bool (matches m (VM v))) ms)]) (parse t)
+      | None => sx_err
+      end
+  | _ => sx_err
+  end.
+
 Definition entries (P : pdb) : list (str * (sx -> sx)) :=
   [ (s2l "n2l", e_n2l);
     (s2l "l2n", e_l2n);
+    (s2l "mparse", e_mparse);
+    (s2l "meval", e_meval);
     (s2l "session", e_session P) ].
 
 Fixpoint lookup_entry (name : str) (l : list (str * (sx -> sx))) : option (sx -> sx) :=
